@@ -123,6 +123,15 @@ def ensure_built(clean=False):
                     os.unlink(os.path.join(COQ, fn))
                 except OSError:
                     pass
+        # the application-facing methods of hpfeeds/blocking/session.py -> coq/BlkGen.v (C11, C12); same fail-closed rule
+        rc7, out7, err7, _ = _run(['/venv/bin/python', os.path.join(VERIF, 'harness', 'pytrans7.py')], timeout=120)
+        if rc7 != 0:
+            trans_note += ' pytrans7 failed: ' + (out7 + err7)[-600:]
+            for fn in ('BlkGen.v', 'BlkGen.vo', 'BlkGenEq.vo'):
+                try:
+                    os.unlink(os.path.join(COQ, fn))
+                except OSError:
+                    pass
         mk = os.path.join(COQ, 'Makefile')
         stale = (not os.path.exists(mk)) or os.path.getmtime(mk) < os.path.getmtime(os.path.join(COQ, '_CoqProject'))
         if clean or stale:
